@@ -4,7 +4,7 @@ use std::{cell::Cell, cell::RefCell, collections::VecDeque, fmt, num, rc::Rc};
 use ntex_bytes::{BytePages, Bytes, BytesMut};
 use ntex_codec::{Decoder, Encoder};
 use ntex_io::IoRef;
-use ntex_util::{HashSet, channel::pool};
+use ntex_util::{HashMap, HashSet, channel::pool};
 
 use crate::v5::codec::{self, Decoded, Encoded, Packet, Publish};
 use crate::{QoS, error, error::SendPacketError, payload::PlSender, types::packet_type};
@@ -54,7 +54,8 @@ pub(super) struct MqttSharedQueues {
     inflight: VecDeque<(num::NonZeroU16, Option<pool::Sender<Ack>>, AckType)>,
     inflight_ids: HashSet<num::NonZeroU16>,
     waiters: VecDeque<pool::Sender<()>>,
-    rx: Option<pool::Receiver<Ack>>,
+    /// QoS 2 publishes waiting for PUBCOMP, keyed by packet id
+    released: HashMap<num::NonZeroU16, (pool::Sender<Ack>, Option<pool::Receiver<Ack>>)>,
 }
 
 pub(super) struct MqttSinkPool {
@@ -65,6 +66,13 @@ pub(super) struct MqttSinkPool {
 impl Default for MqttSinkPool {
     fn default() -> Self {
         Self { queue: pool::new(), waiters: pool::new() }
+    }
+}
+
+impl MqttSharedQueues {
+    /// Number of packets waiting for final acknowledgement
+    fn len(&self) -> usize {
+        self.inflight.len() + self.released.len()
     }
 }
 
@@ -79,7 +87,7 @@ impl MqttShared {
                 inflight: VecDeque::with_capacity(8),
                 inflight_ids: HashSet::default(),
                 waiters: VecDeque::new(),
-                rx: None,
+                released: HashMap::default(),
             }),
             receive_max: Cell::new(0),
             topic_alias_max: Cell::new(0),
@@ -102,7 +110,7 @@ impl MqttShared {
     }
 
     pub(super) fn credit(&self) -> usize {
-        self.cap.get().saturating_sub(self.queues.borrow().inflight.len())
+        self.cap.get().saturating_sub(self.queues.borrow().len())
     }
 
     pub(super) fn receive_max(&self) -> u16 {
@@ -282,6 +290,7 @@ impl MqttShared {
     fn clear_queues(&self) {
         let mut queues = self.queues.borrow_mut();
         queues.waiters.clear();
+        queues.released.clear();
 
         if let Some(cb) = self.on_publish_ack.take() {
             for (idx, tx, _) in queues.inflight.drain(..) {
@@ -314,8 +323,8 @@ impl MqttShared {
 
         // check if there are waiters
         let mut queues = self.queues.borrow_mut();
-        if queues.inflight.len() < self.cap.get() {
-            let mut num = self.cap.get() - queues.inflight.len();
+        if queues.len() < self.cap.get() {
+            let mut num = self.cap.get() - queues.len();
             while num > 0 {
                 if let Some(tx) = queues.waiters.pop_front() {
                     if tx.send(()).is_ok() {
@@ -403,6 +412,30 @@ impl MqttShared {
     fn pkt_ack_inner(&self, pkt: Ack) -> Result<(), error::ProtocolError> {
         let mut queues = self.queues.borrow_mut();
 
+        // PUBCOMP completes QoS 2 exchange
+        if matches!(pkt, Ack::Complete(_)) {
+            // PUBREL must be sent already
+            let released = matches!(queues.released.get(&pkt.packet_id()), Some((_, None)));
+            return if released
+                && let Some((tx, _)) = queues.released.remove(&pkt.packet_id())
+            {
+                log::trace!("Ack packet complete with id: {}", pkt.packet_id());
+                queues.inflight_ids.remove(&pkt.packet_id());
+                let _ = tx.send(pkt);
+
+                // wake up queued request (receive max limit)
+                for tx in queues.waiters.drain(..) {
+                    let _ = tx.send(());
+                }
+                Ok(())
+            } else {
+                log::trace!("Unexpected PUBCOMP packet: {:?}", pkt.packet_id());
+                Err(error::ProtocolError::generic_violation(
+                    "Received PUBCOMP packet for unknown packet id",
+                ))
+            };
+        }
+
         // check ack order
         if let Some((idx, tx, tp)) = queues.inflight.pop_front() {
             if idx != pkt.packet_id() {
@@ -422,26 +455,10 @@ impl MqttShared {
                 if let Some(tx) = tx {
                     let _ = tx.send(pkt);
                 }
+                // PUBCOMP is matched by packet id, its order relative to
+                // acknowledgements of other packets is not defined
                 let (tx, rx) = self.pool.queue.channel();
-                queues.rx = Some(rx);
-                queues.inflight.push_back((idx, Some(tx), AckType::Complete));
-                Ok(())
-            } else if matches!(pkt, Ack::Complete(_)) {
-                // get publish ack channel
-                log::trace!("Ack packet complete with id: {}", pkt.packet_id());
-                queues.inflight_ids.remove(&pkt.packet_id());
-                queues.rx.take();
-
-                if let Some(tx) = tx {
-                    let _ = tx.send(pkt);
-                }
-
-                // wake up queued request (receive max limit)
-                // every waiter checks readiness again; a single woken waiter
-                // could be a `ready()` call or could be dropped before it runs
-                for tx in queues.waiters.drain(..) {
-                    let _ = tx.send(());
-                }
+                queues.released.insert(idx, (tx, Some(rx)));
                 Ok(())
             } else {
                 // get publish ack channel
@@ -554,7 +571,7 @@ impl MqttShared {
     pub(super) fn wait_readiness(&self) -> Option<pool::Receiver<()>> {
         let mut queues = self.queues.borrow_mut();
 
-        if queues.inflight.len() >= self.cap.get()
+        if queues.len() >= self.cap.get()
             || self.flags.get().contains(Flags::WRB_ENABLED)
         {
             let (tx, rx) = self.pool.waiters.channel();
@@ -584,7 +601,9 @@ impl MqttShared {
         &self,
         pkt: codec::PublishAck2,
     ) -> Result<pool::Receiver<Ack>, SendPacketError> {
-        let Some(rx) = self.queues.borrow_mut().rx.take() else {
+        let rx =
+            self.queues.borrow_mut().released.get_mut(&pkt.packet_id).and_then(|item| item.1.take());
+        let Some(rx) = rx else {
             return Err(SendPacketError::UnexpectedRelease);
         };
 
